@@ -238,6 +238,10 @@ def twin_kind_dbc(st, field, nfields):
         return "wrong" if field == 0 else "raises"
     if kw == "BA_DEF_":
         return "matchok"
+    if kw == "BA_DEF_DEF_":
+        # (twins_dbc only offers the defaults of INT / HEX / FLOAT definitions outside the environment level: the handler checks the
+        # value against the definition since the repair of round 10 and raises on a word)
+        return "raises"
     return None
 
 
@@ -250,7 +254,20 @@ def twins_dbc(rng, lines, pos, taken):
     where = {}
     for n, raw in enumerate(lines):
         where.setdefault(raw.strip(), n)
-    stmts = [x for x in statements_dbc(lines) if numeric_fields(x) and not x.startswith("BA_ ")]
+    numeric_defs = set()
+    for x in statements_dbc(lines):
+        mm = re.match(r'BA_DEF_ +(BO_|SG_|BU_)? *"([^"]*)" +(INT|HEX|FLOAT) ', x)
+        if mm:
+            numeric_defs.add(mm.group(2))
+
+    def offered(x):
+        if x.startswith("BA_ "):
+            return False
+        if x.startswith("BA_DEF_DEF_ "):
+            mm = re.match(r'BA_DEF_DEF_ +"([^"]*)" ', x)
+            return bool(mm) and mm.group(1) in numeric_defs
+        return True
+    stmts = [x for x in statements_dbc(lines) if numeric_fields(x) and offered(x)]
     for _k in range(rng.randint(1, 3)):
         if not stmts:
             break
